@@ -111,13 +111,13 @@ def gen_directive(rng, wild):
             lm = rng.choice(["q", "L"])
             d["supported"] = False
     elif rng.random() < 0.03 and conv not in "cs":
-        lm = rng.choice(["L", "h"])
+        lm = "L"
         d["supported"] = False
     t += lm + conv
     dl += len(lm) + 1
     d["text"] = t
     d["dlen"] = dl
-    if not d["supported"] and lm in ("h", "q", "L"):
+    if not d["supported"] and lm in ("q", "L"):
         # the scanners leave the directive at the unknown letter: no argument is taken
         return d
     if conv in "diouxX":
